@@ -143,6 +143,28 @@ func c05(r *Run) {
 			s.Visited += base.Visited
 			r.obW("C05.R12:no-detach-only-if-closed-by-poller:"+w.FnName(fn), "outside the hang-up path the callbacks are run without PollDetach only after seeing that the poller closed the connection: the loser of closeBy(user) may have lost to a concurrent user Close/Detach that has not detached yet - the registration would never be released (and a detached descriptor would stay registered on a slot that is freed and re-used)", fn, site, wit, "guarded by closing == poller")
 		}
+		// R12'': the task detaches when the user closed the connection (the poller did not): its needDetach argument is the
+		// comparison of the closing state with `user`
+		if fn == ro.task {
+			arg := argVal(callCommon(site), 1)
+			okArg := false
+			if b, isB := arg.(*ssa.BinOp); isB && b.Op == token.EQL {
+				for _, side := range [][2]ssa.Value{{b.X, b.Y}, {b.Y, b.X}} {
+					if k, okc := constInt(side[1]); okc && k == ro.whoUser {
+						okArg = true
+					}
+				}
+			}
+			if c, isC := arg.(*ssa.Call); isC && c.Call.StaticCallee() == ro.isCloseBy {
+				if k, okc := argConst(&c.Call, 0); okc && k == ro.whoUser {
+					okArg = true
+				}
+			}
+			if k, okc := constInt(arg); okc && k == 1 {
+				okArg = true // always detaching is safe: a repeated detach is absorbed
+			}
+			r.ob("C05.R12:task-detaches-on-user-close:"+sk, "when the handler task runs the callbacks for a connection the user closed, it asks for PollDetach (needDetach = closedBy == user): nobody else deregisters a descriptor that the poller did not hang up", fn, site, okArg, "needDetach is closedBy == user", true)
+		}
 		// R2: the closer never unlocks
 		ss := &Search{Fn: fn}
 		wit := ss.Find([]Start{After(site)}, func(ins ssa.Instruction) bool {
@@ -195,6 +217,20 @@ func c05(r *Run) {
 			base2.CutEdge = func(ifi *ssa.If, cond ssa.Value, branch bool) bool { return implies(cond, branch, pollNil) }
 			wit = base2.Find([]Start{Entry(fn)}, func(ins ssa.Instruction) bool { return ins == run }, false)
 			s.Visited += base2.Visited
+			// Control is only called on a registered slot: Close inside OnPrepare finds poll == nil
+			for _, ctl := range findIns(fn, func(ins ssa.Instruction) bool { return ro.isControl(ins, ro.evDetach) }) {
+				pollSet := func(v ssa.Value) (bool, bool) {
+					b, ok := v.(*ssa.BinOp)
+					if !ok || (b.Op != token.EQL && b.Op != token.NEQ) || !isNilConst(b.Y) {
+						return false, false
+					}
+					if _, isPoll := loadOfField(b.X, "FDOperator", "poll"); isPoll {
+						return b.Op == token.NEQ, true
+					}
+					return false, false
+				}
+				r.guarded(fmt.Sprintf("C05.R12:detach-only-when-registered#%d", i), "the callback runner calls Control(PollDetach) only when the slot has a poller (operator.poll != nil): a connection closed inside OnPrepare was never registered, and Control would dereference a nil poller", fn, ctl, pollSet, nil, "guarded by operator.poll != nil")
+			}
 			r.obW(fmt.Sprintf("C05.R12:detach-before-callbacks#%d", i), "with needDetach=true (and a registered poll) Control(PollDetach) precedes the callbacks, which free the slot", fn, run, wit, "Control(PollDetach) on every path")
 			// once the lock is held (or was not needed) the callbacks are reached on every path that has callbacks: a failed
 			// detach is logged, not returned
